@@ -294,6 +294,12 @@ class Runtime:
                 import random as _random
 
                 vals.append(_random.getrandbits(40))
+            elif beh == "reseed" and j == 0:
+                # user code that makes itself reproducible: re-seeds the process-wide random module, then samples
+                import random as _random
+
+                _random.seed(12345)
+                vals.append(_random.getrandbits(40))
             elif beh == "versioned" and j == 0:
                 vals.append(Versioned(mix(tag, "ver", [(k, canon(v)) for k, v in items])))
             elif beh == "opaque" and j == 0:
